@@ -285,12 +285,13 @@ func (a *ShellStreamAdapter) ToSession() *ShellSession {
 }
 
 // PushReceive pushes data to the receive channel (called by stream handler).
+// It waits until the reader has room or the session is over: dropping a message
+// in the middle of the output stream would silently corrupt it (and with a
+// timeout in the select, a ready timer can win over a channel that has room).
 func (a *ShellStreamAdapter) PushReceive(data []byte) {
 	select {
 	case a.receive <- data:
 	case <-a.done:
-	case <-time.After(100 * time.Millisecond):
-		// Buffer full after brief wait - drop data
 	}
 }
 
